@@ -21,13 +21,32 @@ def text_of(o):
         return None
 
 
+def _name(k):
+    if isinstance(k, str):
+        return k
+    try:
+        return str(k)
+    except BaseException:  # noqa
+        return None
+
+
 def children_of(o):
     """[(name, original_name_or_None, child_object)] in the object's own order; no caps applied."""
+    try:
+        return _children_of(o)
+    except BaseException:  # noqa - hostile objects (attribute access raises): no children are required
+        return []
+
+
+def _children_of(o):
     t = type(o)
+    if isinstance(o, type) and t is not type:
+        # instances of a metaclass (e.g. Enum classes) may be described through their attribute dictionary
+        return [(_name(k), None, v) for k, v in list(vars(o).items())]
     if isinstance(o, NO_CHILD) or t.__name__ in ("module", "traceback", "list_iterator", "list_reverseiterator"):
         return []
     if t is dict:
-        return [(k, None, v) for k, v in list(o.items())]
+        return [(_name(k), None, v) for k, v in list(o.items())]
     if t in LIST_LIKE:
         return [(str(i), None, v) for i, v in enumerate(tuple(o))]
     if isinstance(o, Exception):
@@ -40,7 +59,7 @@ def children_of(o):
             if isinstance(k, str) and k.startswith(prefix):
                 out.append((k[len(prefix):], k, v))
             else:
-                out.append((k, None, v))
+                out.append((_name(k), None, v))
         return out
     return []
 
